@@ -1,98 +1,89 @@
-//@ item: integer/src/modular/mul.rs :: mul_normalized
-pub(crate) fn mul_normalized<'a>(
+//@ item: integer/src/modular/mul.rs :: sqr_normalized
+pub(crate) fn sqr_normalized<'a>(
     ring: &ConstLargeDivisor,
     a: &[Word],
-    b: &[Word],
     memory: &'a mut Memory,
 ) -> &'a [Word]
 /*@
-    requires ring_full(ring), a@.len() == ring.normalized_divisor@.len(), b@.len() == a@.len(),
-        // stored residues carry `shift` zero low bits (ReducedLarge::is_valid); the code relies on it when it shifts the
-        // product right by `shift` (debug_assert_zero! on the shifted-out bits)
-        val(a@) % ring_p(ring) == 0, val(b@) % ring_p(ring) == 0,
+    requires ring_full(ring), a@.len() == ring.normalized_divisor@.len(),
+        val(a@) % ring_p(ring) == 0,       // `shift` zero low bits (ReducedLarge::is_valid)
     ensures ret@.len() == ring.normalized_divisor@.len(),
         val(ret@) < ring_M(ring),
-        // stored numbers: (A * B >> shift) mod M
-        val(ret@) == ((val(a@) * val(b@)) / ring_p(ring)) % ring_M(ring),
-        // C13 (product): again aligned, and the mathematical residue is (ra * rb) mod m
+        // stored numbers: (A * A >> shift) mod M
+        val(ret@) == ((val(a@) * val(a@)) / ring_p(ring)) % ring_M(ring),
+        // C13 (square): again aligned, and the mathematical residue is (ra * ra) mod m
         val(ret@) % ring_p(ring) == 0,
-        val(ret@) / ring_p(ring) == ((val(a@) / ring_p(ring)) * (val(b@) / ring_p(ring))) % modulus(ring),
+        val(ret@) / ring_p(ring) == ((val(a@) / ring_p(ring)) * (val(a@) / ring_p(ring))) % modulus(ring),
 @*/
 {
     let modulus = ring.normalized_divisor.deref();
     let n = modulus.len();
-    debug_assert!(a.len() == n && b.len() == n);
+    debug_assert!(a.len() == n);
 
-    // trim the leading zeros in a, b
+    // trim the leading zeros in a
     let na = locate_top_word_plus_one(a);
-    let nb = locate_top_word_plus_one(b);
     /*@
     let ghost av = val(a@);
-    let ghost bv = val(b@);
     let ghost p = ring_p(ring);
     let ghost mv = ring_M(ring);
     proof {
         lemma_pow2_pos(ring.shift as int);
         lemma_val_prefix(a@, na as int);
-        lemma_val_prefix(b@, nb as int);
         lemma_norm_half(modulus@, ring.fast_div_top);
         lemma_valn_bound(modulus@, n as int);
     }
     @*/
 
-    // product = a * b
-    let (product, mut memory) = memory.allocate_slice_fill::<Word>(n.max(na + nb), 0);
+    // product = a * a
+    let (product, mut memory) = memory.allocate_slice_fill::<Word>(n.max(na * 2), 0);
     /*@ let ghost len = product@.len() as int; @*/
-    if na | nb == 0 {
+    if na == 0 {
         /*@ proof {
-            assert(((na | nb) == 0) <==> (na == 0 && nb == 0)) by (bit_vector);
             lemma_valn_zero(product@, 0, len);
-            lemma_mm_zero(av, bv, p, mv);
-            lemma_mm_finish(av, bv, mv, p, 0);
+            lemma_mm_zero(av, av, p, mv);
+            lemma_mm_finish(av, av, mv, p, 0);
         } @*/
         return product;
-    } else if na == 1 && nb == 1 {
-        let (a0, b0) = (extend_word(a[0]), extend_word(b[0]));
+    } else if na == 1 {
+        let a0 = extend_word(a[0]);
         /*@ proof {
-            let a0i = a0 as int; let b0i = b0 as int;
-            assert(a0i * b0i < B() * B()) by (nonlinear_arith) requires 0 <= a0i < B(), 0 <= b0i < B();
-           
+            let a0i = a0 as int;
+            assert(a0i * a0i < B() * B()) by (nonlinear_arith) requires 0 <= a0i < B();
         } @*/
-        let (lo, hi) = split_dword(a0 * b0);
+        let (lo, hi) = split_dword(a0 * a0);
         product[0] = lo;
         product[1] = hi;
         /*@ proof {
             lemma_valn2(product@);
             lemma_valn_zero(product@, 2, len);
             lemma_valn1(a@);
-            lemma_valn1(b@);
         } @*/
     } else {
-        mul::multiply(&mut product[..na + nb], &a[..na], &b[..nb], &mut memory);
+        sqr::sqr(&mut product[..na * 2], &a[..na], &mut memory);
         /*@ proof {
-            lemma_val_prefix(product@, (na + nb) as int);
+            lemma_val_prefix(product@, (na * 2) as int);
         } @*/
     }
     /*@ proof {
-        assert(val(product@) == av * bv);
-        lemma_mm_aligned(av, bv, p);
+        assert(val(product@) == av * av);
+        lemma_mm_aligned(av, av, p);
     } @*/
 
     // return (product >> shift) % normalized_modulus
     debug_assert_zero!(shift::shr_in_place(product, ring.shift));
     /*@ proof {
         assert(__zchk1 as int == 0) by (nonlinear_arith)
-            requires __zchk1 as int == ((av * bv) % p) * pow2((WORD_BITS - ring.shift) as int), (av * bv) % p == 0;
+            requires __zchk1 as int == ((av * av) % p) * pow2((WORD_BITS - ring.shift) as int), (av * av) % p == 0;
     } @*/
-    /*@ let ghost x = (av * bv) / p; @*/
-    if na + nb > n {
+    /*@ let ghost x = (av * av) / p; @*/
+    if na * 2 > n {
         let _overflow = div::div_rem_in_place(product, modulus, ring.fast_div_top, &mut memory);
         /*@ proof {
             let q = val(product@.subrange(n as int, len)) + b2i(_overflow) * pw(len - n);
             let r = val(product@.subrange(0, n as int));
             lemma_valn_bound(product@.subrange(0, n as int), n as int);
             vstd::arithmetic::div_mod::lemma_fundamental_div_mod_converse(x, mv, q, r);
-            lemma_mm_finish(av, bv, mv, p, r);
+            lemma_mm_finish(av, av, mv, p, r);
         } @*/
         &product[..n]
     } else {
@@ -104,7 +95,7 @@ pub(crate) fn mul_normalized<'a>(
             // (no annotation inside the block above: it may be deleted as a whole by a code change)
             lemma_valn_bound(product@, len);
             lemma_mm_short(x, mv, pw(n as int), val(product@));
-            lemma_mm_finish(av, bv, mv, p, val(product@));
+            lemma_mm_finish(av, av, mv, p, val(product@));
         } @*/
         product
     }
